@@ -32,7 +32,7 @@ func tryReplayRegion(prog *Program, cs *ContractSet, prop string, r ObResult, re
 	if entry == nil {
 		return
 	}
-	stmts, err := findRegion(x, fu, uc.From, uc.To)
+	stmts, err := findRegion(x, fu, uc)
 	if err != nil {
 		rep.ReplayLog = "no replay: " + err.Error()
 		return
